@@ -1,0 +1,69 @@
+//go:build verif
+
+package commitlog
+
+import (
+	"os"
+	"strconv"
+	"strings"
+	"sync"
+	"syscall"
+)
+
+// Crash-point instrumentation for the /verif crash-recovery checks (build tag
+// verif only).
+//
+//	VERIF_CRASH=<name>:<n>      kill the process (SIGKILL) at the n-th hit of the named point
+//	VERIF_CRASH_COUNT=<file>    append the name of every point that is hit to the file
+var (
+	crashMu     sync.Mutex
+	crashOnce   sync.Once
+	crashName   string
+	crashAt     int
+	crashHits   int
+	crashCountF *os.File
+
+	crashSuspended bool
+)
+
+func crashInit() {
+	if v := os.Getenv("VERIF_CRASH"); v != "" {
+		if i := strings.LastIndex(v, ":"); i > 0 {
+			crashName = v[:i]
+			crashAt, _ = strconv.Atoi(v[i+1:])
+		}
+	}
+	if f := os.Getenv("VERIF_CRASH_COUNT"); f != "" {
+		crashCountF, _ = os.OpenFile(f, os.O_CREATE|os.O_WRONLY|os.O_APPEND, 0644)
+	}
+}
+
+// crashSuspend switches the crash points off (and on again); the harness uses
+// it while it drives a second, shadow log in the same process.
+func crashSuspend(off bool) {
+	crashMu.Lock()
+	crashSuspended = off
+	crashMu.Unlock()
+}
+
+func crashPoint(name string) {
+	crashOnce.Do(crashInit)
+	if crashName == "" && crashCountF == nil {
+		return
+	}
+	crashMu.Lock()
+	defer crashMu.Unlock()
+	if crashSuspended {
+		return
+	}
+	if crashCountF != nil {
+		crashCountF.WriteString(name + "\n")
+	}
+	if name == crashName {
+		crashHits++
+		if crashHits == crashAt {
+			syscall.Kill(os.Getpid(), syscall.SIGKILL)
+			select {} // never returns
+		}
+	}
+}
